@@ -58,12 +58,20 @@ impl Interpreter {
     }
 
     pub(crate) fn next_impl(&mut self) -> Option<Result<State, InterpreterError>> {
+        // A script that failed or ran to its end yields nothing more
+        if self.state.status == Status::Finished {
+            return None;
+        }
+
         let script_bits = &self.script_bits.clone();
         let index = self.script_index;
         let new_state = match script_bits.get(index) {
             Some(v) => match Interpreter::match_script_bit(self, v) {
                 Ok(v) => v,
-                Err(e) => return Some(Err(e)),
+                Err(e) => {
+                    self.state.status = Status::Finished;
+                    return Some(Err(e));
+                }
             },
             None => {
                 self.state.status = Status::Finished;
